@@ -4,7 +4,7 @@
 # scratch worktree /tmp/mrepo, then runs the named checks against the changed tree.
 D="$1"; DEST="$2"; shift 2
 export GOFLAGS=-mod=mod GOPROXY=off GOSUMDB=off GOTOOLCHAIN=local
-W=/tmp/mrepo
+W=${SEED_W:-/tmp/mrepo}
 git -C /repo worktree list | grep -q "$W" || git -C /repo worktree add --detach $W HEAD -f >/dev/null
 git -C $W checkout -q --detach $(git -C /repo rev-parse HEAD); git -C $W checkout -q -- .; git -C $W clean -fdq
 git -C $W apply "$D/patch.diff" || { echo "PATCH-DOES-NOT-APPLY"; exit 3; }
@@ -13,13 +13,13 @@ T1=$( (cd $W && go test -vet=off -count=1 ./... 2>&1 | grep -c "^FAIL") ); T2=$(
 echo "repo tests with change: root FAIL lines=$T1 lib/go FAIL lines=$T2"
 PKG=$(dirname "$DEST")
 cp "$D"/demo_test.go "$W/$DEST"
-(cd "$W/$PKG" && go test -vet=off -count=1 -run 'Seed' . > /tmp/seed_demo_with.out 2>&1); echo "demo with change: exit=$? ($(grep -c -- '--- FAIL' /tmp/seed_demo_with.out) failing tests)"
+(cd "$W/$PKG" && go test -vet=off -count=1 -run 'Seed' . > /tmp/seed_demo_with${SEED_TAG:-}.out 2>&1); echo "demo with change: exit=$? ($(grep -c -- '--- FAIL' /tmp/seed_demo_with${SEED_TAG:-}.out) failing tests)"
 git -C $W apply -R "$D/patch.diff"
-(cd "$W/$PKG" && go test -vet=off -count=1 -run 'Seed' . > /tmp/seed_demo_without.out 2>&1); echo "demo without change: exit=$?"
+(cd "$W/$PKG" && go test -vet=off -count=1 -run 'Seed' . > /tmp/seed_demo_without${SEED_TAG:-}.out 2>&1); echo "demo without change: exit=$?"
 git -C $W apply "$D/patch.diff"; rm -f "$W/$DEST"
 for c in "$@"; do
-  VERIF_EVIDENCE_DIR=/tmp/seed_ev VERIF_REPO=$W /verif/check $c > /tmp/seed_check_$c.out 2>&1; rc=$?
-  echo "check $c exit=$rc keys: $(grep '^  key=' /tmp/seed_check_$c.out | head -4 | tr '\n' ' ')"
+  VERIF_EVIDENCE_DIR=/tmp/seed_ev${SEED_TAG:-} VERIF_REPO=$W /verif/check $c > /tmp/seed_check_${SEED_TAG:-}$c.out 2>&1; rc=$?
+  echo "check $c exit=$rc keys: $(grep '^  key=' /tmp/seed_check_${SEED_TAG:-}$c.out | head -4 | tr '\n' ' ')"
 done
 git -C $W checkout -q -- .; git -C $W clean -fdq
 rm -rf /verif/evidence/replays
